@@ -807,6 +807,23 @@ func dependsOn(v ssa.Value, pred func(ssa.Value) bool, depth int) bool {
 				}
 			}
 		}
+		// loads from a captured cell: the stores into it in this closure and in the function that owns it
+		if u, ok := v.(*ssa.UnOp); ok && u.Op == token.MUL {
+			if fv, ok := u.X.(*ssa.FreeVar); ok {
+				for _, ref := range *fv.Referrers() {
+					if st, ok := ref.(*ssa.Store); ok && st.Addr == ssa.Value(fv) && rec(st.Val, d+1) {
+						return true
+					}
+				}
+				if a, ok := freeVarValue1(fv).(*ssa.Alloc); ok {
+					for _, ref := range *a.Referrers() {
+						if st, ok := ref.(*ssa.Store); ok && st.Addr == a && rec(st.Val, d+1) {
+							return true
+						}
+					}
+				}
+			}
+		}
 		// loads from a local cell: follow the stores into it
 		if u, ok := v.(*ssa.UnOp); ok && u.Op == token.MUL {
 			if a, ok := u.X.(*ssa.Alloc); ok {
